@@ -148,41 +148,24 @@ def check(ctx):
     eb = repo.cls("liesel.goose.builder.EngineBuilder")
     build = method(repo, eb, "build")
     cfg = CFG(build.node)
-    # (lists mutated with .extend are not modelled by the term evaluator, so this clause
-    # is a def-use check on the CFG)
-    collect = None  # name of the list that collects every kernel's position keys
-    for st_ in cfg.stmts:
-        if isinstance(st_, ast.For) and ast.unparse(st_.iter) == "self._kernels":
-            tv = ast.unparse(st_.target)
-            for x in ast.walk(st_):
-                if isinstance(x, ast.Call) and isinstance(x.func, ast.Attribute) \
-                        and x.func.attr == "extend" and x.args \
-                        and ast.unparse(x.args[0]) == f"{tv}.position_keys" \
-                        and isinstance(x.func.value, ast.Name):
-                    collect = (x.func.value.id, st_)
+    rb = evaluate(repo, build)
+    dup_calls = [t for t, _, _ in rb.calls if is_call(t, "liesel.goose.builder._find_duplicate")
+                 and t[2] and any(x[0] == "mut" and x[2] == "extend" and x[3]
+                                  and x[3][0][0] == "a" and x[3][0][2] == "position_keys"
+                                  and x[3][0][1] == ("iter", ("a", SELF, "_kernels"))
+                                  for x in subterms(t[2][0]))]
     ok = False
-    if collect is not None:
-        name, loop = collect
-        assigns = [s_ for s_ in cfg.stmts if isinstance(s_, ast.Assign)
-                   and isinstance(s_.value, ast.Call)
-                   and ast.unparse(s_.value.func) == "_find_duplicate"]
-        mine = [a for a in assigns if a.value.args and ast.unparse(a.value.args[0]) == name
-                and cfg.dominates(loop, a)]
-        rets = [s_ for s_ in cfg.stmts if isinstance(s_, ast.Return)]
-        if len(mine) == 1 and len(rets) == 1:
-            var_ = ast.unparse(mine[0].targets[0])
-            others = [a for a in assigns if a is not mine[0]
-                      and ast.unparse(a.targets[0]) == var_]
-            guards = [s_ for s_ in cfg.stmts if isinstance(s_, ast.If)
-                      and ast.unparse(s_.test) == f"{var_}.is_some()"
-                      and any(isinstance(b, ast.Raise) for b in s_.body)
-                      and cfg.dominates(mine[0], s_)
-                      and not any(cfg.dominates(o, s_) and cfg.dominates(mine[0], o)
-                                  for o in others)]
-            ok = len(guards) == 1 and cfg.dominates(guards[0], rets[0])
+    detail = f"{len(dup_calls)} duplicate searches over the kernels' position keys"
+    if len(dup_calls) == 1:
+        is_some = ("call", ("a", dup_calls[0], "is_some"), (), ())
+        guarded_raise = [rc for rc, _, _ in rb.raises if (is_some, True) in rc]
+        rets = [rc for rc, rt_, _ in rb.returns]
+        ok = len(guarded_raise) == 1 and bool(rets) and all((is_some, False) in rc
+                                                            for rc in rets)
+        detail += f"; raises guarded by it: {len(guarded_raise)}"
     ctx.ob("C04.R4", build, "the position keys of ALL kernels are collected and a duplicate "
                             "raises before the engine is constructed (blocks are disjoint)",
-           ok, stmt="duplicate key check")
+           ok, detail=detail, stmt="duplicate key check")
     fd = repo.func("liesel.goose.builder._find_duplicate")
     rf = evaluate(repo, fd)
     ok = False
